@@ -52,4 +52,7 @@ DigitsWellFormed == \A j \in 1..Len(digits) : digits[j] = 0 \/ (digits[j] % 2 = 
 (* the partial sum plus the pending carry always equals the part of the scalar consumed so far *)
 PartialSum == SumDigits(digits, 1) + carry * Pow2(pos) = scalar % Pow2(pos) \/ pos > NumBits
 Recoded == pos >= NumBits => (carry = 0 /\ SumDigits(digits, 1) = scalar /\ \A j \in 1..Len(digits) : j > NumBits => digits[j] = 0)
+(* rows for the implementation: every scalar of the scaled model with its limbs and the digits the model emits *)
+WExport == pos >= NumBits => PrintT(<<"REPLAY", ToJson([kind |-> "wnaf_model", scalar |-> scalar, limb_bits |-> LimbBits,
+                                                         limbs |-> [i \in 1..Limbs |-> Limb(scalar, i - 1)], digits |-> digits])>>)
 =============================================================================
